@@ -24,8 +24,10 @@ import subprocess
 import sys
 import time
 
-REPO = "/repo"
-LOCK = "/var/tmp/repo.lock"
+# VF_REPO / VF_REPO_LOCK: a frozen clone of /repo (with VF_CHECK pointing at a copy of the harness built
+# against that clone) makes a sweep independent of work going on in /repo and /verif
+REPO = os.environ.get("VF_REPO", "/repo")
+LOCK = os.environ.get("VF_REPO_LOCK", "/var/tmp/repo.lock")
 # the checks a sweep runs: /verif/check, or a frozen copy of it and of vf/ (VF_CHECK=/var/tmp/verif-snap/check)
 # so that a sweep lasting hours is not disturbed by work on the harness
 CHECK = os.environ.get("VF_CHECK", "/verif/check")
